@@ -17,9 +17,9 @@ RULE = ("each case: a tree of 1-8 real directories and up to 20 other children; 
         "Non-trivial = the tree has a write-capable child at depth >=2 and the same client walked it with both caps; distinct by whole case.")
 LEVEL_TEXT = "Random trees and walk orders against an explicit authority table; leak detection by substring scan of what a read-cap holder can obtain."
 ASSUMPTIONS = ["the walking client keeps references to the nodes it has seen (otherwise the weak node cache is always empty)", "file children are never dereferenced (only their caps matter)", "the AES encryption of the rw-cap slot is not attacked; the scan looks for cleartext caps and keys"]
-REQUIRED_CLASSES = ["entry-repacked-by-second-gateway", "blacklisted-child", "depth>=2-writecap", "same-client-rw-then-ro", "same-client-ro-then-rw", "fresh-ro", "unknown-rw", "mdmf-dir", "imm-dir", "ro-link"]
+REQUIRED_CLASSES = ["writecap-offered-in-read-slot:refused", "entry-repacked-by-second-gateway", "blacklisted-child", "depth>=2-writecap", "same-client-rw-then-ro", "same-client-ro-then-rw", "fresh-ro", "unknown-rw", "mdmf-dir", "imm-dir", "ro-link"]
 BUDGET = {"quick": 900, "thorough": 7200}
-LEAF = ["lit", "chk", "ssk", "ssk-ro", "mdmf", "mdmf-ro", "unknown-rw", "unknown-ro", "unknown-imm", "ro-link", "imm-dir"]
+LEAF = ["lit", "chk", "ssk", "ssk-ro", "mdmf", "mdmf-ro", "unknown-rw", "unknown-ro", "unknown-imm", "ro-link", "imm-dir", "unknown-rw-with-writecap-in-ro-slot"]
 
 
 def plan(tier):
@@ -92,6 +92,27 @@ def run_case(case, ctx):
                         raise RuntimeError("immutable mkdir failed %r" % (r,))
                     ro = r[1].get_readonly_uri()
                     classes.add("imm-dir")
+                elif kind == "unknown-rw-with-writecap-in-ro-slot":
+                    # a careless writer: an unknown cap in the write slot and a KNOWN write cap where the read cap belongs.  Either the entry is
+                    # refused, or what ends up in the read slot is not a write cap.
+                    wc = caps.make({"kind": "SSK" if a % 2 else "DIR2-MDMF", "a": 7000 + a * 20 + i, "b": 7007 + a * 20 + i, "k": 3, "n": 10, "size": 100, "lit": ""}).to_string()
+                    from allmydata.interfaces import CapConstraintError
+                    try:
+                        r = g.run(dn.set_uri(name, b"URI:FUTURE-RW:%d" % a, wc))
+                    except CapConstraintError as e_:
+                        r = ("err", e_)
+                    classes.add("writecap-offered-in-read-slot" + (":refused" if r[0] != "ok" else ":stored"))
+                    writecaps.add(wc)
+                    try:
+                        u_ = uri.from_string(wc)
+                        wk_ = getattr(u_, "writekey", None) or getattr(getattr(u_, "_filenode_uri", None), "writekey", None)
+                        if wk_:
+                            writekeys.add(base32.b2a(wk_))
+                    except Exception:
+                        pass
+                    if r[0] == "ok":
+                        expect[p] = None
+                    continue
                 elif kind.startswith("unknown"):
                     tag = b"%d" % a
                     if kind == "unknown-rw":
